@@ -20,6 +20,11 @@ import (
 	"verif/harness/internal/pfcpx"
 )
 
+type marker struct {
+	b  []byte
+	at time.Time
+}
+
 // World is one harness instance: a BESS server, at most one running agent, scripted peers.
 type World struct {
 	Dir      string
@@ -38,7 +43,7 @@ type World struct {
 	Accepted int // accepted session requests (establishment, modification, deletion)
 	EMSock   *net.UnixListener
 	emConn   *net.UnixConn
-	markers  chan []byte
+	markers  chan marker
 	NotifyL  *net.UnixListener
 	NotifyC  *net.UnixConn
 	AccessIP uint32
@@ -47,6 +52,7 @@ type World struct {
 	RespWait time.Duration
 	Quiet    time.Duration // silence window after each step
 	Died     bool
+	HoldFar  time.Duration // C14: delay of farLookup add commands while a modification with SNDEM is processed
 	LastErr  string
 }
 
@@ -76,7 +82,7 @@ func NewWorld(dir, agentBin, tracePath string, cfg agent.Cfg, run int) (*World, 
 	}
 
 	w := &World{Dir: dir, AgentBin: agentBin, Cfg: cfg, Peers: map[string]*pfcpx.Peer{}, Run: run,
-		UpTok: pfcpx.NewToks("u"), CpTok: pfcpx.NewToks("r"), markers: make(chan []byte, 1024),
+		UpTok: pfcpx.NewToks("u"), CpTok: pfcpx.NewToks("r"), markers: make(chan marker, 1024),
 		RespWait: 3 * time.Second, Quiet: 4 * time.Millisecond}
 	w.Bess = fakebess.New()
 
@@ -170,7 +176,7 @@ func (w *World) serveEndMarkers() {
 					return
 				}
 
-				w.markers <- append([]byte(nil), buf[:n]...)
+				w.markers <- marker{b: append([]byte(nil), buf[:n]...), at: time.Now()}
 			}
 		}(c)
 	}
